@@ -340,8 +340,42 @@ def fault_jobs(tier):
     return js
 
 
+def key_string_job(L):
+    """arbitrary strings through key.validate_key / weighted_score: accepted or ValueError, nothing else; acceptance == documented form"""
+    import re
+    import mir_eval.key as KEY
+    from symx import strings as ST
+    KEYNAMES = sorted(k for k in KEY.KEY_TO_SEMITONE if k != 'x')
+
+    def build(ctx):
+        return dict(s=ST.string_input(ctx, 's', L))
+
+    def body(A, inp):
+        s = inp['s']
+        st, v = A.call(KEY.validate_key, s)
+        A.observe('status', st if st == 'ok' else type(v).__name__)
+        A.require(st == 'ok' or isinstance(v, ValueError), 'key.validate_key:only-ValueError', got=type(v).__name__)
+        st2, v2 = A.call(KEY.weighted_score, s, 'C major')
+        A.require(st2 == 'ok' or isinstance(v2, ValueError), 'key.weighted_score:only-ValueError', got=type(v2).__name__)
+        A.require((st == 'ok') == (st2 == 'ok'), 'key.weighted_score:rejects-exactly-what-validate_key-rejects')
+        if st == 'ok':
+            lab = s.conc() if A.sym else s
+            parts = lab.split()
+            good = (len(parts) == 2 and parts[0].lower() in KEYNAMES and parts[1] in ('major', 'minor', 'other')) or lab.lower() == 'x' or \
+                   (len(parts) == 1 and parts[0].lower() == 'x')
+            A.require(good, 'key.validate_key:accepted=>documented-form', label=lab)
+            if st2 == 'ok':
+                A.require(A.in01(v2), 'key.weighted_score:in-[0,1]')
+    j = Job('C14', 'strings:key.validate_key[length=%d]' % L, build, body, funcs=['key.validate_key', 'key.weighted_score', 'key.split_key_string'],
+            lattice=0, exc_policy='body', max_decisions=200000, timeout_s=2400, bounds=dict(length=L))
+    j.extra_patches = {'key': {'KEY_TO_SEMITONE': ST.SymDict(KEY.KEY_TO_SEMITONE), 'str': ST.sym_str}}
+    return j
+
+
 def jobs(tier):
     js = []
+    for L in ((1, 3, 5) if tier == 'quick' else (1, 2, 3, 5, 7)):
+        js.append(key_string_job(L))
     for spec in T.SPECS:
         for size in spec.sizes[tier]:
             js.append(make_valid_job(spec, size))
